@@ -26,6 +26,8 @@ def frame_goal(before: dict, after_heap, alloc_before, targets):
             old = after_heap.initial.get(key)
         if old is None or z3.eq(old, arr):
             continue
+        if any(r is None for r in locs.get(key, [])):
+            continue  # the whole field array is in the frame
         excl = [o != r for r in locs.get(key, [])]
         conj.append(z3.ForAll([o], z3.Implies(z3.And(z3.Select(alloc_before, o), *excl),
                                               z3.Select(arr, o) == z3.Select(old, o))))
